@@ -17,6 +17,19 @@ const NAMES: [&str; 3] = ["a", "b", "c"];
 
 fn value_of(r: &mut Rng, ty: &str, uniq: &mut i32) -> SItem {
     *uniq += 1;
+    // one value in four comes from the "print twin" family (same three printed decimals, different
+    // value; +0.0 / -0.0): a REdefinition with a twin must replace the binding like any other
+    if r.chance(1, 4) {
+        match ty {
+            "FLOAT" => return SItem::Float(fb(gen::twin_float(r))),
+            "FLOATVECTOR" => return SItem::FV(vec![fb(0.25 + *r.pick(&[0.0f32, 0.0004, 0.0001])), fb(0.5 + *r.pick(&[0.0f32, 0.0001]))]),
+            "CODE" | "EXEC" => return SItem::List(vec![SItem::Float(fb(gen::twin_float(r))), SItem::Int(7)]),
+            "INTVECTOR" => return SItem::IV(vec![7, 8]),
+            "BOOLVECTOR" => return SItem::BV(vec![true]),
+            "INTEGER" => return SItem::Int(7),
+            _ => {}
+        }
+    }
     match ty {
         "BOOLEAN" => SItem::Bool(r.bool()),
         "INTEGER" => SItem::Int(*uniq),
